@@ -232,6 +232,8 @@ def case_cuts(p):
                     pr.data_received(stream[pos:c])
                     pos = c
                     trans += 1
+                    if p.get("gap"):
+                        loop._vtime += p["gap"]  # the stream stalls for that long before the next bytes arrive: time is not part of the grammar
                     if observe(pr) != sent[: len(observe(pr))]:
                         raise AssertionError("not prefix")
             except Exception as e:  # noqa: BLE001
@@ -409,6 +411,8 @@ def run(ctx):
     sizes = [1024, 4096, 16383, 16384, 16385, 32768, 65536] + ([] if ctx.tier == "quick" else [1, 7, 255, 8192, 20000, 50000])
     work.append(("reads", {"seq": [huge, ev, hugec, ev], "read_sizes": sizes}))
     work.append(("reads", {"seq": [ev, hugec, huge], "read_sizes": sizes}))
+    for gap in (29.0, 31.0, 3600.0) if ctx.tier == "quick" else (1.0, 29.0, 30.0, 31.0, 61.0, 3600.0, 1e6):
+        work.append(("cuts", {"seq": [ev, small, dict(ev, framing="chunked", chunks=[9, 100]), nobody], "gap": gap}))
     evc = dict(ev, framing="chunked", chunks=[7, 1, 100])
     for sec in (False, True):
         work.append(("cuts_send", {"seq": [ev, small, ev], "secure": sec}))
